@@ -39,7 +39,7 @@ def chain_ref(P):
 @st.composite
 def chain_cases(draw, tier):
     n = draw(st.integers(2, 14 if tier == 'quick' else 60))
-    fam = draw(st.sampled_from(['small', 'small', 'tiny', 'wide', 'convex', 'concave', 'zigzag', 'linear', 'big']))
+    fam = draw(st.sampled_from(['small', 'small', 'tiny', 'wide', 'convex', 'concave', 'zigzag', 'linear', 'big', 'counter']))
     steps = draw(st.lists(st.integers(1, 3), min_size=n, max_size=n))
     x = list(itertools.accumulate(steps))
     if fam == 'tiny':
@@ -61,10 +61,21 @@ def chain_cases(draw, tier):
     elif fam == 'zigzag':
         a = draw(st.integers(1, 5))
         y = [a * (i % 2) + draw(st.integers(0, 1)) for i in range(n)]
+    elif fam == 'counter':
+        # time stamps with a steep, nearly linear cumulative counter: every coordinate is an integer
+        # below 2^53 and every *difference* product is below 2^53, so the predicate written with
+        # differences first is exact, while |x|*|dy| is far above 2^53
+        x0 = draw(st.sampled_from([1700000000000, 1700000000, 4000000000000]))
+        x = [x0 + v for v in x]
+        rate = draw(st.integers(100000, 130000))
+        y = [0]
+        for i in range(1, n):
+            rate += draw(st.integers(-40, 40))
+            y.append(y[-1] + rate * (x[i] - x[i - 1]))
     else:
         m = draw(st.integers(-3, 3))
         y = [m * v + 50 for v in x]
-    k = draw(st.sampled_from([0, 0, -10, -3, 4, 10]))
+    k = draw(st.sampled_from([0, 0, -10, -3, 4, 10])) if fam != 'counter' else 0
     return {'kind': 'chain', 'family': fam, 'P': [[a, b] for a, b in zip(x, y)], 'k': k}
 
 
@@ -214,7 +225,36 @@ def examples_planar(tier):
              'P': [[0, 3], [1, 1], [2, 2], [4, 4], [0, 0], [1, 2], [3, 1], [3, 3]]}]
 
 
+@st.composite
+def long_chain_cases(draw, tier):
+    """More than 1000 points (vectorised pre-filters / fast paths for large curves)."""
+    n = draw(st.integers(1001, 2500 if tier == 'quick' else 8000))
+    spacing = draw(st.sampled_from(['unit', 'bursty', 'bursty', 'random']))
+    shape = draw(st.sampled_from(['convex', 'convex-dec', 'noisy-convex', 'random']))
+    xs, x = [], 0
+    for i in range(n):
+        if spacing == 'unit':
+            x += 1
+        elif spacing == 'random':
+            x += 1 + (i * 7919 % 5)
+        else:
+            x += 1 if (i // 37) % 3 else 40 + (i % 11)
+        xs.append(x)
+    c = draw(st.integers(0, n))
+    a = draw(st.sampled_from([1, 3, 10]))
+    if shape == 'convex':
+        ys = [a * (i - c) * (i - c) for i in range(n)]
+    elif shape == 'convex-dec':
+        ys = [(10 ** 9) // (xx + 50) for xx in xs]
+    elif shape == 'noisy-convex':
+        ys = [a * (i - c) * (i - c) + (i * 2654435761 % 97) for i in range(n)]
+    else:
+        ys = [(i * 2654435761) % 1000 for i in range(n)]
+    return {'kind': 'chain', 'family': 'long:%s/%s' % (spacing, shape), 'P': [[u, v] for u, v in zip(xs, ys)], 'k': 0}
+
+
 SUBS = [
+    Sub('long_chain', oracle_chain, strategy=long_chain_cases, budget={'quick': 64, 'thorough': 640}),
     Sub('chain', oracle_chain, strategy=chain_cases, budget={'quick': 8000, 'thorough': 160000}, fuzz={'thorough': 20000}),
     Sub('fchain', oracle_float_chain, strategy=float_chain_cases, budget={'quick': 3200, 'thorough': 48000}),
     Sub('planar', oracle_planar, strategy=planar_cases, budget={'quick': 8000, 'thorough': 160000},
